@@ -10,7 +10,7 @@ TStep ==
   /\ LET ev0 == T[l] IN
      IF ev0.op = "reset" THEN st' = Init0 /\ skip' = FALSE /\ prim' = "none" /\ UNCHANGED nbad
      ELSE IF ev0.op = "setup" THEN st' = (CHOOSE o \in Step(ev0, st) : TRUE) /\ prim' = ev0.prim /\ UNCHANGED <<skip, nbad>>
-     ELSE IF skip \/ ev0.op \notin {"call", "ret", "proc_end", "timeout", "end"} THEN UNCHANGED <<st, skip, nbad, prim>>
+     ELSE IF skip \/ ev0.op \notin {"call", "ret", "proc_end", "started", "timeout", "end"} THEN UNCHANGED <<st, skip, nbad, prim>>
      ELSE LET ev == IF ev0.op = "ret" THEN [op |-> "ret", t |-> ev0.t, f |-> ev0.f, r |-> ev0.r, now |-> ev0.now, prim |-> prim] ELSE ev0
               succ == Step(ev, st) IN
           IF succ # {} THEN st' = (CHOOSE o \in succ : TRUE) /\ UNCHANGED <<skip, nbad, prim>>
